@@ -170,6 +170,8 @@ impl Drop for SlowHandle {
 
 struct ThreadState {
     slow_helpers: Vec<detsim::thread::JoinHandle<()>>,
+    /// how many of them are attach helpers (control operations in flight)
+    attach_helpers: u32,
     tl_guard: [Option<ThreadLocalTestSinkGuard>; 2],
     rt_enter: Option<(u64, tokio::runtime::EnterGuard<'static>)>,
 }
@@ -188,12 +190,26 @@ fn catch<R>(f: impl FnOnce() -> R) -> Result<R, String> {
 }
 
 fn g_ops(plan: &Value, tno: u64, ops: &[Value], log: &GLog, hist: &History, rts: &'static [tokio::runtime::Runtime], ctl: &Arc<detsim::sync::Mutex<Ctl>>) {
-    let mut ts = ThreadState { slow_helpers: vec![], tl_guard: [None, None], rt_enter: None };
+    let mut ts = ThreadState { slow_helpers: vec![], attach_helpers: 0, tl_guard: [None, None], rt_enter: None };
     let _ = plan;
     for op in ops {
         let name = js(op, "op", "").to_string();
         let g = ju(op, "g", 0).min(1);
         let gi = g as usize;
+        // control operations on one global never overlap: before the control thread attaches / detaches / forgets while
+        // a helper of its own is still attaching, the pending slow destructors are let go and the helpers joined
+        if tno == 0 && ts.attach_helpers > 0 && matches!(name.as_str(), "attach" | "detach" | "forget") && !jb(op, "on_helper", false) {
+            let d = format!("slow_finish t0 {}", json!({"op":"slow_finish","g":g,"implicit":true}));
+            log.log(GK::OpBegin { op: d.clone() });
+            for gate in ctl.lock().unwrap().pending_gates.drain(..) {
+                gate.store(true, std::sync::atomic::Ordering::SeqCst);
+            }
+            for h in ts.slow_helpers.drain(..) {
+                let _ = h.join();
+            }
+            ts.attach_helpers = 0;
+            log.log(GK::OpEnd { op: d, outcome: "ok".into() });
+        }
         let desc = format!("{} t{} {}", name, tno, op);
         log.log(GK::OpBegin { op: desc.clone() });
         let outcome: String = match name.as_str() {
@@ -205,6 +221,7 @@ fn g_ops(plan: &Value, tno: u64, ops: &[Value], log: &GLog, hist: &History, rts:
                 op2["inline"] = json!(true);
                 let (p2, l2, h2, c2) = (plan.clone(), log.clone(), hist.clone(), ctl.clone());
                 ts.slow_helpers.push(detsim::thread::spawn_named("attach-helper", move || g_ops(&p2, 1_000, &[op2], &l2, &h2, rts, &c2)));
+                ts.attach_helpers += 1;
                 "spawned".into()
             }
             "attach" => {
@@ -282,6 +299,7 @@ fn g_ops(plan: &Value, tno: u64, ops: &[Value], log: &GLog, hist: &History, rts:
                 for h in ts.slow_helpers.drain(..) {
                     let _ = h.join();
                 }
+                ts.attach_helpers = 0;
                 "ok".into()
             }
             "detach" => {
@@ -436,6 +454,11 @@ fn runtimes() -> &'static [tokio::runtime::Runtime] {
 }
 
 fn global_main(plan: &Value, log: GLog, hist: History) {
+    // (process-global state: a run must find both globals unattached; a forgotten handle retires the worker)
+    if GlobalA::is_attached() || GlobalB::is_attached() {
+        log.log(GK::Leak { threads: vec!["a global sink was still attached when this run began (left behind by the previous run of this process)".into()] });
+        return;
+    }
     let rts = runtimes();
     let ctl = Arc::new(detsim::sync::Mutex::new(Ctl { slow: [None, None], pending_gates: vec![], attach: [None, None], rt_guard: BTreeMap::new() }));
     let mut hs = vec![];
